@@ -114,6 +114,14 @@ func c18FilterWriterTable(h H) (bad string, n int) {
 					return aiface{aptr{&aobj{name: "compressor", typ: gzWT, f: map[string]aval{}}, ""}, types.NewPointer(gzWT)}, true
 				}
 				return aiface{aptr{&aobj{name: "discard", typ: types.Typ[types.Int], f: map[string]aval{}}, ""}, types.Typ[types.Int]}, true
+			case callee == "invoke:WriteHeader" && who(args[0]) == gz:
+				if code, ok := args[len(args)-1].(aint); ok && code >= 100 && code <= 199 && code != 101 {
+					events = append(events, "gzip-info-header")
+					return atuple{}, true
+				}
+				events = append(events, "gzip-header")
+				round++
+				return atuple{}, true
 			case callee == "invoke:WriteHeader":
 				if code, ok := args[len(args)-1].(aint); ok && code >= 100 && code <= 199 && code != 101 {
 					// an informational response commits nothing
@@ -124,6 +132,11 @@ func c18FilterWriterTable(h H) (bad string, n int) {
 				round++
 				return atuple{}, true
 			case callee == "invoke:Write":
+				if who(args[0]) == gz {
+					// the gzip writer reached through an interface (an io.Writer chosen by a helper)
+					events = append(events, "gzip-body")
+					return atuple{aint(3), anil{}}, true
+				}
 				events = append(events, "plain-body")
 				return atuple{aint(3), anil{}}, true
 			case strings.HasSuffix(callee, "gzip.Writer).Reset"):
